@@ -315,6 +315,57 @@ func genFacts() {
 	})
 	f["mergeErrorsReturned"] = leanBool(cnt == 2)
 
+	// ---- loadRootFromAny: only a NoSuchKey answer moves on to the next location
+	la := kvs.fn("loadRootFromAny")
+	f["loadAnySkipCond"] = leanStr("unknown")
+	ast.Inspect(la, func(x ast.Node) bool {
+		if i, ok := x.(*ast.IfStmt); ok && endsIn(i.Body, "continue") {
+			f["loadAnySkipCond"] = leanStr(kvs.text(i.Cond))
+		}
+		return true
+	})
+	f["loadAnyReturnsOtherErrors"] = leanBool(strings.Contains(kvs.text(la.Body), "if err != nil { var ae awserr.Error if errors.As(err, &ae) && ae.Code() == s3.ErrCodeNoSuchKey { continue } return nil, nil, fmt.Errorf(\"%s: %w\", persist[i].NodeURLPrefix(), err) }"))
+	// ---- statement paths propagate storage errors (C14)
+	propagates := func(s *src, fn, callee string) bool { return s.errCheckedAfter(s.fn(fn).Body, callee) }
+	f["statementErrorsPropagate"] = leanBool(
+		propagates(vc, "VirtualTable.Insert", "getRow") && propagates(vc, "VirtualTable.Insert", "c.Tree.Root.Set") &&
+			propagates(vc, "VirtualTable.Update", "getRow") && propagates(vc, "VirtualTable.Update", "c.Tree.Root.Set") &&
+			propagates(vc, "VirtualTable.Delete", "getRow") && propagates(vc, "VirtualTable.Delete", "c.Tree.Root.Set") &&
+			propagates(vc, "VirtualTable.Commit", "c.Tree.Root.Commit") &&
+			propagates(vc, "Cursor.Next", "c.cursor.Forward") && propagates(vc, "Cursor.Next", "c.cursor.Backward") &&
+			propagates(vc, "Cursor.Filter", "c.t.Tree.Root.Cursor"))
+	chg := load("sqlite/s3db_changes.go")
+	cn2 := chg.fn("ChangesCursor.Next")
+	f["changesErrorsPropagate"] = leanBool(strings.Contains(chg.text(cn2.Body), "if err == mast.ErrNoMoreDiffs { c.eof = true return nil } if err != nil { return err }") &&
+		strings.Contains(chg.text(cn2.Body), "if row, ok := de.NewValue.(*v1proto.Row); ok && row != nil && !row.Deleted {"))
+	// ---- Rollback restores the snapshot taken at Begin unconditionally; Commit clears it only on success (C05)
+	rb := vc.fn("VirtualTable.Rollback")
+	f["rollbackRestoresSnapshot"] = leanBool(vc.text(rb.Body) == "{ dbg(\"ROLLBACK\\n\") if c.txStart != nil { c.Tree.Root.Cancel() c.Tree.Root = c.txStart c.txStart = nil } return nil }")
+	cm := vc.fn("VirtualTable.Commit")
+	f["commitKeepsSnapshotOnError"] = leanBool(vc.text(cm.Body) == "{ dbg(\"COMMIT\\n\") _, err := c.Tree.Root.Commit(ctx) if err != nil { return fmt.Errorf(\"commit tree: %w\", err) } c.txStart = nil return nil }")
+	bg := vc.fn("VirtualTable.Begin")
+	f["beginClonesTree"] = leanBool(strings.Contains(vc.text(bg.Body), "c.txStart, err = c.Tree.Root.Clone(ctx)") && strings.Contains(vc.text(bg.Body), "if c.txStart != nil { return errors.New(\"transaction already in progress\") }"))
+	// ---- connection attributes (C05, C15)
+	vb := vt.fn("VirtualTable.Begin")
+	f["beginFixesWriteTime"] = leanBool(strings.Contains(vt.text(vb.Body), "if c.module.sc.writeTime.IsZero() { c.module.sc.writeTime = time.Now() c.module.sc.txFixedWriteTime = true c.module.sc.ResetContext() }"))
+	endsTx := "if c.module.sc.txFixedWriteTime { c.module.sc.writeTime = time.Time{} c.module.sc.txFixedWriteTime = false c.module.sc.ResetContext() }"
+	f["endOfTxReleasesWriteTime"] = leanBool(strings.Contains(vt.text(vt.fn("VirtualTable.Commit").Body), endsTx) && strings.Contains(vt.text(vt.fn("VirtualTable.Rollback").Body), endsTx))
+	cu := load("sqlite/s3db_conn.go")
+	cut := cu.text(cu.fn("ConnModule.Update").Body)
+	f["connUpdateParsesBeforeAssigning"] = leanBool(strings.Contains(cut, "newDeadline, newWriteTime := c.sc.deadline, c.sc.writeTime") &&
+		strings.Contains(cut, "c.sc.deadline, c.sc.writeTime = newDeadline, newWriteTime if !writeTime.NoChange() { c.sc.txFixedWriteTime = false } c.sc.ResetContext() return nil") &&
+		strings.Count(cut, "return fmt.Errorf(") == 2)
+	cc := cu.fn("ConnCursor.Column")
+	ccl := stmtsOf(cc.Body)
+	f["connColumnHonoursNoChange"] = leanBool(len(ccl) > 0 && func() bool {
+		i, ok := ccl[0].(*ast.IfStmt)
+		return ok && cu.text(i.Cond) == "context.NoChange()" && endsIn(i.Body, "return")
+	}())
+	rc := vt.text(vt.fn("S3DBConn.ResetContext").Body)
+	f["resetContextAsExpected"] = leanBool(strings.Contains(rc, "sc.ctx = context.Background() if !sc.deadline.IsZero() { sc.ctx, sc.ctxCancel = context.WithDeadline(sc.ctx, sc.deadline) } if !sc.writeTime.IsZero() { sc.ctx = writetime.NewContext(sc.ctx, sc.writeTime) }"))
+	ut2 := vc.text(vc.fn("updateTime").Body)
+	f["updateTimePrefersContext"] = leanBool(ut2 == "{ if t, ok := writetime.FromContext(ctx); ok { return t } return time.Now() }")
+
 	// ---- read-only guards
 	var guards []string
 	for _, m := range []string{"DB.Set", "DB.Tombstone", "DeleteHistoricVersions"} {
